@@ -128,9 +128,17 @@ class Tracer:
             if cal is not None and 'body' in cal and cal.get('linkage') == 'internal' and not cal.get('method') and e.get('this') is None:
                 body = cal['body']
                 stmts = body.get('body', []) if body.get('k') == 'compound' else [body]
-                if len(stmts) == 1 and stmts[0].get('k') == 'return' and stmts[0].get('e') is not None and len(e.get('args', [])) == len(cal.get('params', [])):
-                    from .cfg import subst_params
-                    return self.val(subst_params(stmts[0]['e'], {p['id']: a for p, a in zip(cal['params'], e['args'])}), zero_calls)
+                from .cfg import subst_params, CFG as _CFG
+                rex = _CFG._return_expr(stmts)
+                if rex is not None and len(e.get('args', [])) == len(cal.get('params', [])):
+                    return self.val(subst_params(rex, {p['id']: a for p, a in zip(cal['params'], e['args'])}), zero_calls)
+        if k == 'cond':
+            c = self.val(e['c'], zero_calls)
+            if c is None:
+                return None
+            return self.val(e['then'] if c else e['else'], zero_calls)
+        if k == 'lit' and 'bool' in e:
+            return int(bool(e['bool']))
         return None
 
     def emit(self, *ev):
